@@ -169,7 +169,8 @@ class Monitor:
         self.noise_used.add(meta['id'])
         scale = meta['scale']
         ev = dict(type='release', kind=meta['kind'], scale=(float(scale) if np.ndim(scale) == 0 else np.asarray(scale, dtype=float).copy()),
-                  x=np.broadcast_to(operand, np.broadcast(operand, noise_arr).shape).copy(), n=int(np.broadcast(operand, noise_arr).size))
+                  x=np.broadcast_to(operand, np.broadcast(operand, noise_arr).shape).copy(), n=int(np.broadcast(operand, noise_arr).size),
+                  noise_n=int(noise_arr.size))      # noise_n < n: one draw was broadcast over several released cells
         if self.mode == 'record':
             y = operand + noise_arr
         else:
@@ -239,6 +240,24 @@ def charges(ev1, ev2):
             d = a['x'] - b['x']
             s1, s2 = np.asarray(a['scale'], dtype=float), np.asarray(b['scale'], dtype=float)
             s = np.minimum(s1, s2)
+            nn = min(a.get('noise_n', a['n']), b.get('noise_n', b['n']))
+            if nn < a['n']:
+                # the released cells share noise draws: every contrast between cells sharing a draw is released exactly.
+                # One draw for the whole vector: finite cost only if the statistic moves by the same amount in every cell.
+                dd = np.asarray(d, dtype=float).reshape(-1)
+                same = dd.size == 0 or bool(np.all(dd == dd[0]))
+                if nn == 1 and same:
+                    v = float(dd[0]) if dd.size else 0.0
+                    sm = float(np.min(s))
+                    if a['kind'] == 'normal':
+                        out.append(dict(type='gaussian', rho=v * v / (2 * sm * sm), eps=math.inf if v != 0 else 0.0, l2=abs(v), scale=sm, shared_noise=True))
+                    else:
+                        out.append(dict(type='laplace', rho=(v / sm) ** 2 / 2.0, eps=abs(v) / sm, l1=abs(v), scale=sm, shared_noise=True))
+                elif nn == 1:
+                    out.append(dict(type='gaussian' if a['kind'] == 'normal' else 'laplace', rho=math.inf, eps=math.inf, scale=float(np.min(s)), shared_noise=True))
+                else:
+                    out.append(dict(type='gaussian' if a['kind'] == 'normal' else 'laplace', rho=math.nan, eps=math.nan, scale=float(np.min(s)), shared_noise=True, unattributable=True))
+                continue
             if a['kind'] == 'normal':
                 out.append(dict(type='gaussian', rho=float(np.sum((d / s) ** 2)) / 2.0, eps=math.inf if np.any(d != 0) else 0.0,
                                 l2=float(np.sqrt(np.sum(d * d))), scale=float(np.min(s))))
